@@ -275,9 +275,12 @@ def run_concrete_twin(desc, M):
     if order != pars:
         cpd0.reorder_parents(order)
     m.add_cpds(cpd0)
-    for fmt in ("bif", "xmlbif"):
+    from pgmpy.readwrite.NET import NETReader, NETWriter
+    for fmt in ("bif", "xmlbif", "net"):
         if fmt == "bif":
             m2 = BIFReader(string=str(BIFWriter(m)), n_jobs=1).get_model()
+        elif fmt == "net":
+            m2 = NETReader(string=str(NETWriter(m))).get_model()
         else:
             s = XMLBIFWriter(m).__str__()
             m2 = XMLBIFReader(string=s.decode() if isinstance(s, bytes) else s).get_model()
@@ -292,10 +295,11 @@ def run_concrete_twin(desc, M):
                 a = dict(zip(c1.variables, st))
                 x1 = float(c1.get_value(**a))
                 x2 = float(c2.get_value(**{k: str(s_) for k, s_ in a.items()}))
-                if x1 != x2:
+                if (x1 != x2) if fmt != "net" else (abs(x1 - x2) > 1e-4):
                     nbad += 1
                     first = first or f"{var} {a}: wrote {x1!r} read {x2!r}"
                 worst = max(worst, abs(x1 - x2))
         # BIF and XMLBIF print Python's shortest round-trip repr of every float: the round trip is EXACT
-        M.check(nbad == 0, f"{fmt}: probability of every named assignment is exactly unchanged (magnitudes 1e-12..1, exact 0/1, {ncol * 3} entries)",
+        M.check(nbad == 0, f"{fmt}: probability of every named assignment is {'unchanged to four decimals' if fmt == 'net' else 'exactly unchanged'} "
+                           f"(magnitudes 1e-12..1, exact 0/1, {ncol * 3} entries)",
                 detail=f"{nbad} entries differ, max abs diff {worst}; first: {first}")
